@@ -5,6 +5,8 @@ norm='L2', array equality with sklearn.cluster.KMeans run with the same paramete
 the module-level _centers_dense records whether an M-step produced a non-finite centre (mechanism of the
 empty-cluster defect).
 """
+import warnings
+
 import numpy
 
 PROPERTY = "C06"
@@ -22,7 +24,7 @@ ASSUMPTIONS = ["dense finite data with at least k distinct rows; sample weights 
                "one OpenMP/BLAS thread so that scikit-learn's KMeans is bit-reproducible for the L2 clause"]
 
 CLASSES = ["blobs", "duplicates", "lattice", "n==k", "k==1", "line", "1-D", "float32", "offset", "empty-cluster-init",
-           "lattice-random-init", "count-table"]
+           "lattice-random-init", "count-table", "tiny-scale", "huge-scale"]
 
 
 def cases(tier, seed):
@@ -40,9 +42,11 @@ def make(rng, cls):
     d = int(rng.randint(1, 5))
     n = int(rng.randint(k + 1, 120))
     init = ["k-means++", "random"][rng.randint(2)]
-    if cls == "blobs":
+    if cls in ("blobs", "tiny-scale", "huge-scale"):
         c = rng.randn(k, d) * 6
         X = c[rng.randint(k, size=n)] + rng.randn(n, d)
+        if cls != "blobs":
+            X = X * (10.0 ** (-int(rng.randint(8, 13))) if cls == "tiny-scale" else 10.0 ** int(rng.randint(5, 9)))
     elif cls == "duplicates":
         base = rng.randn(k + int(rng.randint(0, 4)), d) * 3
         X = base[rng.randint(len(base), size=n)]
@@ -163,19 +167,35 @@ def run_case(case, ctx):
     cls = CLASSES[case["sub"] % len(CLASSES)]
     X, k, init = make(rng, cls)
     n_init = 1 if isinstance(init, numpy.ndarray) else [1, 3][rng.randint(2)]
+    rng2 = numpy.random.RandomState((case["sub"] * 7 + 3) % (2 ** 31))
+    init_l1 = init
+    if isinstance(init, numpy.ndarray) and rng2.rand() < 0.3:
+        n_init = 3  # "explicit initial centres: performing only one init" branch
+    elif isinstance(init, str) and rng2.rand() < 0.12:
+        # a callable init (mlinsights' signature: init(norm, X, k, random_state=...)): k distinct data rows
+        def init_l1(norm, Xa, kk, random_state=None):
+            u = numpy.unique(Xa, axis=0)
+            return u[random_state.permutation(len(u))[:kk]]
     max_iter = [1, 2, 300][rng.randint(3)] if rng.rand() < 0.4 else 300
     tol = 0.0 if rng.rand() < 0.2 else 1e-4
     rs = int(rng.randint(0, 1000))
     uniform_w = rng.rand() < 0.15
     w = numpy.full(len(X), 2.0) if uniform_w else None
     cfg = {"class": cls, "n": int(X.shape[0]), "d": int(X.shape[1]), "k": k,
-           "init": init if isinstance(init, str) else "ndarray", "n_init": n_init, "max_iter": max_iter, "tol": tol,
+           "init": init if isinstance(init, str) else "ndarray", "init_L1": "callable" if callable(init_l1) else None,
+           "n_init": n_init, "max_iter": max_iter, "tol": tol,
            "random_state": rs, "uniform_weights": bool(uniform_w), "dtype": str(X.dtype), "sub": case["sub"]}
     ctx.cls("class=" + cls)
-    Xq = numpy.vstack([X[: min(5, len(X))], (X[rng.randint(len(X), size=8)] + rng.randn(8, X.shape[1])).astype(X.dtype),
-                       (X.mean(axis=0, keepdims=True) + 50).astype(X.dtype)])
+    sq = float(numpy.abs(X - X.mean(axis=0)).max()) or 1.0
+    sq = sq if cls in ("tiny-scale", "huge-scale") else 1.0
+    Xq = numpy.vstack([X[: min(5, len(X))],
+                       (X[rng.randint(len(X), size=8)] + rng.randn(8, X.shape[1]) * sq * (0.2 if sq != 1.0 else 1.0)
+                        ).astype(X.dtype),
+                       (X.mean(axis=0, keepdims=True) + 50 * sq).astype(X.dtype)])
     f32 = X.dtype == numpy.float32
     rt = 1e-4 if f32 else 1e-9
+    sc = float(numpy.abs(X).max()) or 1.0     # absolute slack follows the magnitude of the data
+    at = (1e-3 if f32 else 1e-9) * sc
     Xk = X.copy()
 
     # ---- hook: does an M-step ever return a non-finite centre, and for which kind of cluster?
@@ -196,10 +216,12 @@ def run_case(case, ctx):
 
     mod._centers_dense = wrapped
     try:
-        m = KMeansL1L2(n_clusters=k, init=init, n_init=n_init, max_iter=max_iter, tol=tol, random_state=rs,
+        m = KMeansL1L2(n_clusters=k, init=init_l1, n_init=n_init, max_iter=max_iter, tol=tol, random_state=rs,
                        norm="L1")
         try:
-            r = m.fit(X) if w is None else m.fit(X, sample_weight=w)
+            with warnings.catch_warnings():
+                warnings.simplefilter("ignore")
+                r = m.fit(X) if w is None else m.fit(X, sample_weight=w)
             err = None
         except Exception as e:
             err = e
@@ -234,7 +256,7 @@ def run_case(case, ctx):
                 ctx.violation(K + "labels/invalid", "labels_ outside 0..k-1 or wrong shape", cfg=cfg)
             else:
                 own = D[numpy.arange(len(X)), lab]
-                bad = own > dmin * (1 + rt) + (1e-3 if f32 else 1e-9)
+                bad = own > dmin * (1 + rt) + at
                 if bad.any():
                     i = int(numpy.argmax(own - dmin))
                     ctx.violation(K + "labels/not-nearest-centre",
@@ -244,13 +266,13 @@ def run_case(case, ctx):
                 ctx.hit("L1.inertia")
                 scale = 2.0 if uniform_w else 1.0
                 tot = float(dmin.sum())
-                if not (abs(m.inertia_ - tot * scale) <= (1e-3 if f32 else 1e-9) * max(1.0, tot * scale)):
+                if not (abs(m.inertia_ - tot * scale) <= (1e-3 if f32 else 1e-9) * max(sc, tot * scale)):
                     ctx.violation(K + "inertia/not-sum-of-distances",
                                   "inertia_=%r, sum of distances to the nearest returned centre=%r" % (
                                       m.inertia_, tot * scale), cfg=cfg, n_iter=m.n_iter_)
             ctx.hit("L1.centre_range")
             lo, hi = X.min(axis=0).astype(float), X.max(axis=0).astype(float)
-            eps = (1e-3 if f32 else 1e-9) * (1 + numpy.abs(hi))
+            eps = (1e-3 if f32 else 1e-9) * (sc + numpy.abs(hi))
             if ((C < lo - eps) | (C > hi + eps)).any():
                 ctx.violation(K + "centres/outside-data-range", "a centre coordinate lies outside [min, max] of the "
                               "data", cfg=cfg, centres=C[:3], lo=lo, hi=hi)
@@ -269,10 +291,10 @@ def run_case(case, ctx):
                     ctx.hit("L1.predict_int_batch")
                     Di = cdist(Qi.astype(float), C, "cityblock")
                     oi = Di[numpy.arange(len(Qi)), numpy.clip(pi, 0, k - 1)]
-                    if pi.min() < 0 or pi.max() >= k or (oi > Di.min(axis=1) * (1 + 1e-9) + 1e-9).any():
+                    if pi.min() < 0 or pi.max() >= k or (oi > Di.min(axis=1) * (1 + 1e-9) + at).any():
                         ctx.violation(K + "predict/not-nearest-centre/int-batch", "predict on an integer-dtype batch "
                                       "(%s) returned a centre that is not Manhattan-nearest" % qname, cfg=cfg)
-                    if Ti.shape != Di.shape or not numpy.allclose(Ti, Di, rtol=1e-9, atol=1e-9):
+                    if Ti.shape != Di.shape or not numpy.allclose(Ti, Di, rtol=1e-9, atol=at):
                         ctx.violation(K + "transform/not-manhattan-distances/int-batch", "transform on an "
                                       "integer-dtype batch is not the Manhattan distance matrix", cfg=cfg)
             # predict / transform on new rows
@@ -282,20 +304,36 @@ def run_case(case, ctx):
                 Dq = cdist(Xq.astype(float), C, "cityblock")
                 ctx.hit("L1.predict")
                 ownq = Dq[numpy.arange(len(Xq)), p] if p.min() >= 0 and p.max() < k else None
-                if ownq is None or (ownq > Dq.min(axis=1) * (1 + rt) + (1e-3 if f32 else 1e-9)).any():
+                if ownq is None or (ownq > Dq.min(axis=1) * (1 + rt) + at).any():
                     ctx.violation(K + "predict/not-nearest-centre", "predict returned a centre that is not "
                                   "Manhattan-nearest", cfg=cfg)
                 ctx.hit("L1.transform")
                 if T.shape != Dq.shape or not numpy.allclose(T, Dq, rtol=1e-4 if f32 else 1e-9,
-                                                             atol=1e-2 if f32 else 1e-9):
+                                                             atol=1e-2 * sc if f32 else at):
                     ctx.violation(K + "transform/not-manhattan-distances", "transform is not the matrix of Manhattan "
                                   "distances to the centres", cfg=cfg, got=T[0], expected=Dq[0])
                 pt = numpy.asarray(m.predict(X))
                 owt = D[numpy.arange(len(X)), pt]
-                ctx.check(not (owt > dmin * (1 + rt) + (1e-3 if f32 else 1e-9)).any(),
+                ctx.check(not (owt > dmin * (1 + rt) + at).any(),
                           K + "predict/not-nearest-centre", "predict on the training set is not nearest", cfg=cfg)
             except Exception as e:
                 ctx.violation(K + "predict/raised/%s" % type(e).__name__, "%s: %s" % (type(e).__name__, e), cfg=cfg)
+    # fit_transform is fit followed by transform (what a Pipeline calls on an intermediate step)
+    if err is None and w is None and case["sub"] % 3 == 0:
+        try:
+            m2 = KMeansL1L2(n_clusters=k, init=init_l1, n_init=n_init, max_iter=max_iter, tol=tol, random_state=rs,
+                            norm="L1")
+            with warnings.catch_warnings():
+                warnings.simplefilter("ignore")
+                FT = numpy.asarray(m2.fit_transform(X), dtype=float)
+            ctx.hit("L1.fit_transform")
+            D2 = cdist(X.astype(float), numpy.asarray(m2.cluster_centers_, dtype=float), "cityblock")
+            if FT.shape != D2.shape or not numpy.allclose(FT, D2, rtol=1e-4 if f32 else 1e-9,
+                                                          atol=1e-2 * sc if f32 else at):
+                ctx.violation(K + "fit_transform/not-manhattan-distances", "fit_transform(X) is not the matrix of "
+                              "Manhattan distances to the fitted centres (what fit(X).transform(X) returns)", cfg=cfg)
+        except Exception as e:
+            ctx.violation(K + "fit_transform/raised/%s" % type(e).__name__, str(e)[:150], cfg=cfg)
     ctx.check(numpy.array_equal(X, Xk), "C06/input-modified", "fit/predict wrote into X (copy_x=True)", cfg=cfg)
 
     # ---- L2: exactly KMeans
@@ -304,12 +342,14 @@ def run_case(case, ctx):
         try:
             a = KMeansL1L2(norm="L2", **kw)
             b = KMeans(**kw)
-            if w is None:
-                a.fit(X)
-                b.fit(X)
-            else:
-                a.fit(X, sample_weight=w)
-                b.fit(X, sample_weight=w)
+            with warnings.catch_warnings():
+                warnings.simplefilter("ignore")
+                if w is None:
+                    a.fit(X)
+                    b.fit(X)
+                else:
+                    a.fit(X, sample_weight=w)
+                    b.fit(X, sample_weight=w)
         except Exception as e:
             ctx.violation("C06/L2/raised/%s" % type(e).__name__, "%s: %s" % (type(e).__name__, str(e)[:200]), cfg=cfg)
             return
@@ -330,6 +370,57 @@ def run_case(case, ctx):
         if diffs:
             ctx.violation("C06/L2/differs-from-KMeans/%s" % diffs[0], "norm='L2' differs from KMeans in %s" % diffs,
                           cfg=cfg)
+        # ---- history: a fit under the other norm that is refused changes nothing of what predict / transform answer
+        if not f32 and isinstance(init, str):
+            for first, other in (("L2", "L1"), ("L1", "L2")):
+                fault = ["nan", "weights", "too-few-rows"][(case["sub"] // 7 + (first == "L1")) % 3]
+                try:
+                    h = KMeansL1L2(norm=first, **kw)
+                    with warnings.catch_warnings():
+                        warnings.simplefilter("ignore")
+                        h.fit(X)
+                    C0 = numpy.array(h.cluster_centers_, dtype=float)
+                    h.set_params(norm=other)
+                    try:
+                        with warnings.catch_warnings():
+                            warnings.simplefilter("ignore")
+                            if fault == "nan":
+                                Xb = X.copy()
+                                Xb[0, 0] = numpy.nan
+                                h.fit(Xb)
+                            elif fault == "weights":
+                                h.fit(X, sample_weight=numpy.arange(1.0, len(X) + 1))
+                            else:
+                                h.fit(X[:max(k - 1, 0)])
+                        refused = False
+                    except Exception:
+                        refused = True
+                    if not refused or not numpy.array_equal(C0, numpy.asarray(h.cluster_centers_, dtype=float)):
+                        ctx.excluded("history clause: the fit under the other norm was not refused / replaced the centres")
+                        continue
+                    h.set_params(norm=first)
+                    ph, Th = numpy.asarray(h.predict(Xq)), numpy.asarray(h.transform(Xq), dtype=float)
+                except Exception as e:
+                    ctx.violation("C06/%s/history/raised/%s" % (first, type(e).__name__), "fit %s, set_params(norm=%s), "
+                                  "refused fit (%s), set_params(norm=%s), predict raised: %s" % (
+                                      first, other, fault, first, str(e)[:120]), cfg=cfg)
+                    continue
+                ctx.hit("history.refused_fit_other_norm")
+                if first == "L1":
+                    Dh = cdist(Xq.astype(float), C0, "cityblock")
+                    own = Dh[numpy.arange(len(Xq)), numpy.clip(ph, 0, k - 1)]
+                    wrong = ph.min() < 0 or ph.max() >= k or (own > Dh.min(axis=1) * (1 + 1e-9) + at).any() or \
+                        Th.shape != Dh.shape or not numpy.allclose(Th, Dh, rtol=1e-9, atol=at)
+                else:
+                    with warnings.catch_warnings():
+                        warnings.simplefilter("ignore")
+                        hb = KMeans(**kw).fit(X)
+                    wrong = not numpy.array_equal(ph, hb.predict(Xq)) or not numpy.array_equal(Th, hb.transform(Xq))
+                if wrong:
+                    ctx.violation("C06/%s/history/predict-or-transform-follows-the-refused-fit" % first,
+                                  "after fit(norm=%s), set_params(norm=%s), a refused fit (%s) and set_params(norm=%s) "
+                                  "predict / transform no longer use the %s distance to the fitted centres" % (
+                                      first, other, fault, first, first), cfg=cfg)
     if k >= 2 and X.shape[0] > k:
         ctx.nontriv(cfg)
     ctx.sample({"cfg": cfg, "m_steps_observed": hook["calls"]})
